@@ -96,7 +96,7 @@ class StubSim(mosaik_api_v3.Simulator):
         if self.finalized:
             self.ctx.ev("X", self.sid, "request-after-finalize", "step", k)
         yield from self._fault_point("step", k)
-        if "step" in self.ctx.gate_kinds and self.ctx.gated:
+        if "step" in self.ctx.gate_kinds and self.ctx.gated and self.sid not in self.ctx.sync:
             yield self.ctx.loop.gate((self.sid, "step", k))
         sp = self.spec
         if str(k) in (sp.get("raise_in_step") or {}):
@@ -133,7 +133,7 @@ class StubSim(mosaik_api_v3.Simulator):
         if self.finalized:
             self.ctx.ev("X", self.sid, "request-after-finalize", "get_data", k)
         yield from self._fault_point("get_data", k)
-        if "get_data" in self.ctx.gate_kinds and self.ctx.gated:
+        if "get_data" in self.ctx.gate_kinds and self.ctx.gated and self.sid not in self.ctx.sync:
             yield self.ctx.loop.gate((self.sid, "get_data", k))
         data = {}
         ent = {}
